@@ -5,11 +5,16 @@ package dv
 import (
 	"reflect"
 	"sync/atomic"
+	"time"
 	"unsafe"
 
 	"github.com/named-data/ndnd/dv/nfdc"
 	"github.com/named-data/ndnd/dv/table"
+	"github.com/named-data/ndnd/dv/tlv"
+	"github.com/named-data/ndnd/std/ndn"
+	"github.com/named-data/ndnd/std/security"
 	ndn_sync "github.com/named-data/ndnd/std/sync"
+	"github.com/named-data/ndnd/std/utils"
 )
 
 // White-box access for the C18/C19 harnesses. Nothing here changes behaviour: each function calls
@@ -42,6 +47,36 @@ func (dv *Router) VerifBootRegister() error {
 // VerifBootSelf is the rest of VerifBoot: the statement of Start() between register() and the loop.
 func (dv *Router) VerifBootSelf() {
 	dv.rib.Set(dv.config.RouterName(), dv.config.RouterName(), 0)
+}
+
+// VerifAdvertTake / VerifAdvertReply are advertDataOnInterest cut in two at the point where it
+// releases dv.mutex: the handler takes dv.rib.Advert() under the mutex (a closure with a deferred
+// Unlock) and encodes, signs and sends it AFTERWARDS. Other goroutines of the router can run between
+// the two halves; whatever they do, the handler goes on with the advertisement it took. The two
+// functions repeat the handler's statements; the harness uses them only while the handler still has
+// that shape (dvsim.SplitReplyApplies reads the source) and compares their output with the real
+// handler's whenever nothing happened in between.
+func (dv *Router) VerifAdvertTake() *tlv.Advertisement {
+	dv.mutex.Lock()
+	defer dv.mutex.Unlock()
+	return dv.rib.Advert()
+}
+
+func (dv *Router) VerifAdvertReply(args ndn.InterestHandlerArgs, adv *tlv.Advertisement) {
+	signer := security.NewSha256Signer()
+	content := adv.Encode()
+	data, err := dv.engine.Spec().MakeData(
+		args.Interest.Name(),
+		&ndn.DataConfig{
+			ContentType: utils.IdPtr(ndn.ContentTypeBlob),
+			Freshness:   utils.IdPtr(10 * time.Second),
+		},
+		content,
+		signer)
+	if err != nil {
+		return
+	}
+	args.Reply(data.Wire)
 }
 
 // VerifHeartbeat is the heartbeat arm of Start()'s loop.
